@@ -1,4 +1,4 @@
-import Dawn.Proofs.DiffVal
+import Dawn.Proofs.DiffTop
 /-!
 # C16 — diffs are faithful to both values
 
@@ -24,7 +24,7 @@ theorem C16_empty_iff (d : Nat) (a b : Val) :
       cases r with
       | true => simp
       | false =>
-        simp only [reduceCtorEq, iff_false, ne_eq, true_implies]
+        simp only [ne_eq, true_implies]
         refine ⟨?_, ?_⟩ <;>
         · split
           · split <;> simp
@@ -72,5 +72,175 @@ theorem C16_sides_counterexample :
      | .ok (some x) => x.old.beq abc && x.new.beq abd
      | _ => false) = true := by
   decide +kernel
+
+/-- C16, faithful edits (sequences), for the sequence diff on lists over any element type, whatever `routeSize`
+(so including the restart path): provided the element comparison does not fail (`heq`, in both argument orders
+because `diffSlice` may exchange the sequences) and, when replacements are diffed element by element, those
+diffs do not fail (`hD`), `diffSlice` returns an edit script and the script reproduces both sequences
+(`Recon`): the values of its `common` and `delete` edits and the old sides of its `replace` edits, in order,
+are exactly `a`; the values of its `add` edits, the new sides of its `replace` edits and, for `common` edits,
+elements found equal to the kept ones, are exactly `b`; every entry of a `replace` is the diff of the pair of
+elements at that position (`None` iff that diff is empty, i.e. the elements are equal). -/
+theorem C16_faithful {α δ : Type} (eq : α → α → Except Err Bool) (eqb : α → α → Bool)
+    (elemDiff : α → α → Except Err (Option δ)) (lit : Option (List α → List α → δ))
+    (routeSize : Nat) (hrs : 1 ≤ routeSize) (a b : List α)
+    (heq : ∀ x ∈ a, ∀ y ∈ b, eq x y = .ok (eqb x y)) (heq' : ∀ x ∈ b, ∀ y ∈ a, eq x y = .ok (eqb x y))
+    (hD : ∀ x ∈ a, ∀ y ∈ b, lit = none → ∃ d, elemDiff x y = .ok d) :
+    ∃ edits, diffSliceEdits eq elemDiff lit routeSize a b = .ok edits ∧ Recon eqb elemDiff lit edits a b :=
+  diffSliceEdits_spec eq eqb elemDiff lit routeSize hrs a b heq heq' hD
+
+/-- C16, termination and memory safety of the search: the rounds `for p := 0; ; p++` get fuel `m + n + 2`, the
+passes `for { … }` fuel `m + n + 1`, the route extraction `len(points) + 1`, every array access is checked —
+and none of these bounds is ever hit: the result is never `outOfFuel` and never a Go panic. -/
+theorem C16_terminates {α δ : Type} (eq : α → α → Except Err Bool) (eqb : α → α → Bool)
+    (elemDiff : α → α → Except Err (Option δ)) (lit : Option (List α → List α → δ))
+    (routeSize : Nat) (hrs : 1 ≤ routeSize) (a b : List α)
+    (heq : ∀ x ∈ a, ∀ y ∈ b, eq x y = .ok (eqb x y)) (heq' : ∀ x ∈ b, ∀ y ∈ a, eq x y = .ok (eqb x y))
+    (hD : ∀ x ∈ a, ∀ y ∈ b, lit = none → ∃ d, elemDiff x y = .ok d) :
+    diffSliceEdits eq elemDiff lit routeSize a b ≠ .error .outOfFuel ∧
+    diffSliceEdits eq elemDiff lit routeSize a b ≠ .error .indexPanic := by
+  obtain ⟨edits, h, _⟩ := diffSliceEdits_spec eq eqb elemDiff lit routeSize hrs a b heq heq' hD
+  rw [h]; exact ⟨by simp, by simp⟩
+
+/-- C16 for Starlark values, totality: `DiffDepth` on values no deeper than its depth (and no deeper than the
+limit 1000 of `snake`, plus one) returns a diff or `nil` — no depth error, no panic, no fuel shortage. `Diff`
+uses depth `CompareLimit = 10`. -/
+theorem C16_total (d : Nat) (a b : Val) (ha : a.height ≤ d) (hb : b.height ≤ d) (hd : d ≤ snakeDepth + 1) :
+    ∃ r, diffDepth d a b = .ok r :=
+  diffDepthWith_total defaultRouteSize (by decide) false d a b ha hb hd
+
+/-- C16 for Starlark values, faithful edits: the sequence diff of two strings, bytes, tuples or lists (any mix)
+reproduces the elements of both, with replacements diffed one level down (for two strings or bytes: one literal
+diff of the two pieces). -/
+theorem C16_faithful_values (d : Nat) (a b : Val) (xs ys : List Val)
+    (hxs : a.elems? = some xs) (hys : b.elems? = some ys)
+    (ha : a.height ≤ d + 1) (hb : b.height ≤ d + 1) (hd : d ≤ snakeDepth)
+    (hne : equalDepth (d + 1) a b = .ok false) :
+    ∃ edits, diffDepth (d + 1) a b = .ok (some (.slice a b edits)) ∧
+      Recon eqbV (diffDepth d) (litOf a b) edits xs ys := by
+  obtain ⟨edits, he, hr⟩ := slice_case defaultRouteSize (by decide) (diffDepth d) d
+    (fun x y h1 h2 => diffDepthWith_total defaultRouteSize (by decide) false d x y h1 h2 (by omega))
+    a b xs ys hxs hys ha hb hd
+  refine ⟨edits, ?_, hr⟩
+  simp only [litOf, diffDepth] at he
+  simp only [diffDepth, diffDepthWith, hne, hxs, hys, he, sliceSides, Bool.false_and, Bool.false_eq_true, ↓reduceIte]
+
+/-- C16, mappings: `diffMapping` reports an edit exactly for each key added, removed or changed, with the right
+kind and content: a key only in the old mapping is a `delete` of its old value, a key only in the new one an
+`add` of its new value, a key in both is a `replace` carrying the diff of the two values — unless that diff is
+empty (the values are equal), in which case there is no edit for the key; a key in neither has no edit. -/
+theorem C16_mapping (f : Val → Val → Except Err (Option VDiff)) (old new : List (Val × Val))
+    (es : List (Val × Edit Val VDiff)) (ho : KeysDistinct old) (hn : KeysDistinct new)
+    (h : mappingEdits f old new = .ok es) (k : Val) :
+    match lookup k old, lookup k new with
+    | none, none => editFor k es = none
+    | some ov, none => editFor k es = some (k, .delete [ov])
+    | none, some nv => editFor k es = some (k, .add [nv])
+    | some ov, some nv => (f ov nv = .ok none ∧ editFor k es = none) ∨
+                          (∃ d, f ov nv = .ok (some d) ∧ editFor k es = some (k, .replace [some d])) :=
+  mappingEdits_spec f old new es ho hn h k
+
+/-- the part `k` of two environments differs: present in one only, or with values that do not compare equal -/
+def partChanged (k : Val) (old new : List (Val × Val)) : Bool :=
+  match lookup k old, lookup k new with
+  | none, none => false
+  | some ov, some nv =>
+    match equalDepth (envDepth - 1) ov nv with
+    | .ok true => false
+    | _ => true
+  | _, _ => true
+
+/-- C16, rebuild reason: when `diffEnv` reports two environment dicts as changed, the reason it shows names
+exactly the parts (keys of `functionEnvKeys`, in that order) whose values differ, joined as
+"a", "a and b" or "a, b, and c", followed by " changed". -/
+theorem C16_reason (old new : List (Val × Val)) (ho : KeysDistinct old) (hn : KeysDistinct new)
+    (r : String) (d : VDiff) (h : diffEnv (some (.dict old)) false (.dict new) = .changed r d) :
+    ∃ rs, joinReasons (functionEnvKeys.filter fun k => partChanged (.str k.toUTF8.toList) old new) = .ok rs ∧
+      r = rs ++ " changed" := by
+  have hE : envDepth = (envDepth - 1) + 1 := by decide
+  unfold diffEnv at h
+  simp only [Bool.false_eq_true, ↓reduceIte] at h
+  split at h
+  · cases h
+  · cases h
+  · rw [diffDepth, hE] at h
+    simp only [diffDepthWith] at h
+    rw [← hE] at h
+    rename_i heq
+    simp only [heq, Val.elems?] at h
+    split at h
+    · cases h
+    · cases h
+    · rename_i o' n' edits hm
+      split at hm
+      · cases hm
+      · rename_i edits' hme
+        simp only [Except.ok.injEq, Option.some.injEq, VDiff.mapping.injEq] at hm
+        obtain ⟨rfl, rfl, rfl⟩ := hm
+        have hfilter : (functionEnvKeys.filter fun k => hasEdit (.str k.toUTF8.toList) edits') =
+            functionEnvKeys.filter fun k => partChanged (.str k.toUTF8.toList) old new := by
+          apply List.filter_congr
+          intro k _
+          generalize (Val.str k.toUTF8.toList) = key
+          rw [hasEdit_eq]
+          have hs := mappingEdits_spec _ old new edits' ho hn hme key
+          have hiff := fun ov nv => (C16_empty_iff (envDepth - 1) ov nv).1
+          unfold partChanged
+          cases hlo : lookup key old <;> cases hln : lookup key new <;>
+            simp only [hlo, hln] at hs ⊢
+          · simp [hs]
+          · simp [hs]
+          · simp [hs]
+          · rename_i ov nv
+            rcases hs with ⟨e1, e2⟩ | ⟨dd, e1, e2⟩
+            · have := (hiff ov nv).mp e1
+              simp [e2, this]
+            · have hne : ¬ equalDepth (envDepth - 1) ov nv = .ok true := by
+                intro hc
+                have := (hiff ov nv).mpr hc
+                rw [diffDepth] at this
+                rw [this] at e1
+                cases e1
+              simp only [e2, Option.isSome_some]
+        rw [hfilter] at h
+        split at h
+        · rename_i rs hj
+          simp only [EnvResult.changed.injEq] at h
+          exact ⟨rs, hj, h.1.symm⟩
+        · cases h
+    · cases h
+
+/-! ### non-vacuity: concrete instances (evaluated by the kernel) -/
+
+def vs (s : String) : Val := .str s.toUTF8.toList
+
+/-- the hypotheses of `C16_faithful_values` hold for "abcab" / "acabb" and the script found is
+`= a, ~ (b → c), + ab, = a(b)…`: here checked only for shape: a sequence diff with the two values as sides -/
+example : (match diff (vs "abcab") (vs "acabb") with
+    | .ok (some (.slice o n es)) => o.beq (vs "abcab") && n.beq (vs "acabb") && es.length == 4
+    | _ => false) = true := by decide +kernel
+example : ((vs "abcab").elems?.isSome && decide ((vs "abcab").height ≤ 9 + 1) && decide ((9 : Nat) ≤ snakeDepth) &&
+    (match equalDepth (9 + 1) (vs "abcab") (vs "acabb") with | .ok false => true | _ => false)) = true := by
+  decide +kernel
+/-- a nested value: a dict inside a list inside a tuple; the diff is a sequence diff whose replace carries a
+mapping diff -/
+example : (match diff (.tuple [vs "x", .list [.dict [(vs "k", vs "v")]]]) (.tuple [vs "x", .list [.dict [(vs "k", vs "w")]]]) with
+    | .ok (some (.slice _ _ [.common _, .replace [some (.slice _ _ [.replace [some (.mapping _ _ [(_, .replace _)])]])]])) => true
+    | _ => false) = true := by decide +kernel
+/-- equal dicts in another insertion order: no diff -/
+example : (match diff (.dict [(vs "a", vs "1"), (vs "b", vs "2")]) (.dict [(vs "b", vs "2"), (vs "a", vs "1")]) with
+    | .ok none => true | _ => false) = true := by decide +kernel
+/-- the depth limit: `Diff` refuses values nested deeper than `CompareLimit` -/
+example : (match diffDepth 2 (.tuple [.tuple [vs "a"]]) (.tuple [.tuple [vs "b"]]) with
+    | .error .depth => true | _ => false) = true := by decide +kernel
+/-- the restart path: with `routeSize = 1` the search restarts several times and the script is still found -/
+example : (match diffDepthWith 1 false 10 (vs "abcabc") (vs "xbxcax") with
+    | .ok (some (.slice _ _ es)) => es.length > 0 | _ => false) = true := by decide +kernel
+/-- the reason of two environments that differ in their code and in a global -/
+example : (match diffEnv (some (.dict [(vs "global values", vs "1"), (vs "code", vs "x"), (vs "names", vs "n")])) false
+      (.dict [(vs "global values", vs "2"), (vs "code", vs "y"), (vs "names", vs "n")]) with
+    | .changed r _ => r == "global values and code changed" | _ => false) = true := by decide +kernel
+example : KeysDistinct [(.str [97], .str [49]), (.str [98], .str [50])] := by
+  simp [KeysDistinct]
 
 end Dawn.Diff
